@@ -211,7 +211,7 @@ class Gen:
         r = self.r
         return ("int", r.choice([0, 0, 1, 1, 2, 3, 4, 5, 7, 8, 10, 16, 31, 63, 64, 100, 255, 256, 1000,
                                  self.mem_len, max(0, self.mem_len - 1), self.mem_len + 1,
-                                 2147483647, 4294967295, 9223372036854775807]))
+                                 2147483647, 4294967295, 4294967296, 4294967300, 8589934593, 9223372036854775807]))
 
     def gint(self, d, in_for=False, nid=0):
         r = self.r
